@@ -35,7 +35,13 @@ func (obsLogger) Info(string, ...interface{})    {}
 func (obsLogger) Error(string, ...interface{})   {}
 func (obsLogger) Debugf(string, ...interface{})  {}
 func (obsLogger) Infof(string, ...interface{})   {}
-func (obsLogger) Errorf(string, ...interface{})  {}
+func (obsLogger) Errorf(msg string, a ...interface{}) {
+	if traceErrors {
+		fmt.Fprintf(os.Stderr, "  c17 engine error log: "+msg+"\n", a...)
+	}
+}
+
+var traceErrors = os.Getenv("VERIF_C17_TRACE") == "2" // diagnosis only
 func (obsLogger) Warning(string, ...interface{}) {}
 func (obsLogger) Warningf(msg string, others ...interface{}) {
 	if len(others) == 1 && strings.HasPrefix(msg, unknownPrefix) {
